@@ -525,6 +525,8 @@ class FSM(addons.AddonPersistence, block.SBlock):
             return True
         finally:
             self._fsm_event_active = False
+            # forget a chained event left behind by a failed transition
+            self._next_event = None
 
 
     def _event(self, etype: str|block.EventType, data: Mapping) -> bool:
